@@ -65,6 +65,29 @@ def extra(cases, verdicts):
             "machine_traces": len(mcases), "machine_steps_compared": msteps, "machine_events": dict(mev)}
 
 
+def marker_pin_only(case, detail, m):
+    """known-finding predicate (S45): the failing entries are the pin oracle and/or the feasibility oracle, and every note says
+    that a pinned reload / break marker left its place while the customer jobs keep theirs"""
+    if not isinstance(detail, str) or not detail.startswith("oracle failed: "):
+        return False
+    head, _, rest = detail[len("oracle failed: "):].partition(" ")
+    keys = set(k for k in head.split(",") if k)
+    if not keys or not keys <= {"locked_jobs_stay", "assigned_part_feasible"}:
+        return False
+    import ast
+    try:
+        notes = ast.literal_eval(rest.strip())
+    except Exception:
+        return False
+    if not notes or len(notes) >= 6:      # the driver lists at most 6 notes: a full list may hide others
+        return False
+    ok_notes = ("a pinned marker (reload/break) left its place", "a listed reload/break is not at its place")
+    return all(any(t in n.get("what", "") for t in ok_notes) and "; " not in n.get("what", "") for n in notes)
+
+
+PREDICATES = {"marker_pin_only": marker_pin_only}
+
+
 PROP = dict(
     proof_modules=["VrpProofs.C04", "VrpProofs.C02", "VrpProofs.Machine"],
     model_modules=["VrpModel.Machine", "VrpModel.C04", "VrpModel.Prag", "VrpModel.Spec"],
